@@ -5,8 +5,33 @@ claim('C07',
       'and, for k>=4, in the enumerated list orders.',
       'doubles modelled as reals; EXP/LOG uninterpreted with LOG(EXP t)=t; numpy.log10 replaced by a fresh-real contract stub; z3 trusted',
       'DESIGN.md 3/C07')
+
+claim('C02',
+      'Bounded symbolic check from the real C (LLVM IR) and Python: for every one of the 15 per-axis kernels, the 5 precomputed-coefficient '
+      'kernels (through the real Python coefficient builders) and the drivers one_pop..five_pops (constant and function-of-time parameters, '
+      'frozen flags), z3 proves for all densities, per-axis grids, nu, distinct migration rates, gamma, h, beta, dt that each line of each '
+      'sweep hands the Thomas solver exactly the reference implicit flux-form system (absorbing terms only on the two corner lines), '
+      'r=phi/dt, and writes the solution back to the same line; the Thomas solver is verified from its own IR (residual, premalloc twin, '
+      'uniqueness n<=5); Chang-Cooper weights are verified against their defining property. Bounded in grid points per axis (3-4 quick) and '
+      'one time step.',
+      'doubles as reals; tridiagonal solve and compute_delj replaced by contracts inside kernels and verified separately; _compute_dt '
+      'stubbed by a fresh dt>=T; denominators in a query assumed non-zero; clang -O0 IR + interpreter validated by replay on gcc-built C',
+      'DESIGN.md 3/C02')
+claim('C09',
+      'Bounded symbolic check of the real Spectrum.fold/unfold, Numerics.apply_anc_state_misid/make_anc_state_misid_func, operator overloads, '
+      'slicing and Inference.ll auto-folding on object-dtype spectra with one z3 real per entry: entrywise folding formula, totals, mirror '
+      'symmetry, mask union, fold(unfold(fold))=fold, convex misidentification mix for symbolic p, flag/mask/label survival through every '
+      'binary/unary/in-place operator, refusal of mixed folding; shapes 1-5 D (<=12 entries exhaustively masked in thorough).',
+      'doubles as reals; masks/shapes enumerated, values symbolic; LOG/LGAMMA replaced by fresh-value contract stubs with argument identities proved',
+      'DESIGN.md 3/C09')
+claim('C10',
+      'Bounded symbolic check of the real marginalize/filter_pops/reorder_pops/combine_pops/combine_two_pops/scramble_pop_ids/Misc.combine_pops '
+      'against explicit re-indexing oracles (math.comb / Fractions) with one z3 real per entry: entries, masks, labels, folded flag, totals, '
+      'commutation with fold and project; 2-6 D shapes with unequal sample sizes 1-3 (1-4 thorough), every subset/permutation/merge set up to 5-D.',
+      'doubles as reals; gammaln replaced by the exact integer-argument stub (validated against scipy); shapes enumerated, values symbolic',
+      'DESIGN.md 3/C10')
 _todo = 'check not built yet (work in progress in this session; see DESIGN.md for the plan)'
-for _p in ['C01','C02','C03','C04','C05','C06','C08','C09','C10','C11','C12','C13','C14','C15','C17','C18','C19','C20']:
+for _p in ['C01','C03','C04','C05','C06','C08','C11','C12','C13','C14','C15','C17','C18','C19','C20']:
     NA[_p] = _todo
 NA['C16'] = ('every path from a demes graph to a spectrum goes through the third-party demes package (attrs validators, float() coercion, '
              'math.isclose, YAML) which forces all symbolic values to concrete floats: nothing is left for a solver to quantify over (DESIGN.md section 4)')
